@@ -80,14 +80,18 @@ class C19(Prop):
             "2^21; 2^28 in the thorough tier) and around both range ends, plus random multi-message cases (absent directives, "
             "too many directives, messages without a padding field, undecodable Any). Compared: error class, and per message "
             "proto.Size with padding cleared, padding length, serialized size, other-fields-untouched. "
-            "c19.sharp: live RPCs between the in-process reference client and reference server (started and configured as the "
-            "runner does) with the sized message at limit-1, limit, limit+1 of the uncompressed size: requests against the "
-            "server limit for unary/client/server/half-/full-duplex streams, server-stream responses against the client limit; "
-            "protocols x compressions sampled per seed (quick) or in full (thorough). non-trivial = padding changed, an error "
-            "class other than range, or an RPC verdict")
+            "c19.sharp: live RPCs of the in-process reference client with the sized message at limit-1, limit, limit+1 of the "
+            "uncompressed size: requests (sized by expandRequestData; zeros, or incompressible existing padding that is topped up "
+            "or trimmed) against the reference server started with the server limit, for unary/client/server/half-/full-duplex "
+            "streams; responses (unary, and the second message of a server stream; zeros or incompressible) from an exact-size "
+            "connect-go handler against the client limit given as the runner gives it; protocols x compressions sampled per seed "
+            "(quick) or in full (thorough). c19.wiring: a generated suite file with one size directive per offset through "
+            "parseTestSuites, newTestCaseLibrary, runTestCasesForServer and both reference peers; compared: request size and "
+            "the runner's verdict. non-trivial = padding changed, an error class other than range, or an RPC verdict")
     trusted_base = ("Coq 8.16.1 kernel (vm_compute used, native_compute not)", "extraction (ExtrOcamlBasic only) + ocaml/driver.ml",
-                    "vlib generators/comparator, Go overlay harness files (build the request messages, classify error texts into 4 tags)",
-                    "modelled not verified: google.golang.org/protobuf (proto.Size, Any), connect-go WithReadMaxBytes — the latter only "
+                    "vlib generators/comparator, Go overlay harness files (build the request messages, classify error texts into 4 tags, "
+                    "the exact-size response handler used as the reference client's peer, the generated suite file of c19.wiring)",
+                    "modelled not verified: google.golang.org/protobuf (proto.Size, Any), connect-go WithReadMaxBytes - the latter only "
                     "compared with the specification `accepts` by live runs")
     assumptions = ("request_data is a proto3 bytes field with implicit presence and a field number < 16 in every padded request type "
                    "(re-checked from the descriptors on every run: C19_Consts.v + theorem tag_one_byte)",
@@ -97,11 +101,13 @@ class C19(Prop):
                   "length does, rejects only unreachable / out-of-range / unpaddable requests, never crashes and changes only padding "
                   "lengths, for all messages, existing paddings and offsets; the model is tied to expandRequestData by a differential "
                   "run on every check, and the sharpness of the receive limit is a specification compared with live runs of the real "
-                  "reference peers.")
+                  "reference peers and of the runner's own path.")
     level_note = ("Trusted: Coq kernel, extraction, OCaml driver, harness. Correspondence model/Go is sampled (windows around every "
                   "boundary), not proved. limit_sharp (`accepts`) is a specification that execution is compared with, not a theorem about "
-                  "connect-go. Client-side sharpness is exercised on server-stream responses only (unary responses echo request headers, "
-                  "so their size is not controllable to the byte).")
+                  "connect-go. Known finding wire-size-also-limited: connect-go applies the limit to the compressed envelope as well, so "
+                  "'measured on the uncompressed size' holds only while the compressed form does not exceed the limit. Client-side "
+                  "sharpness uses an exact-size connect-go handler as the peer of the real reference client, because the reference server "
+                  "echoes the request in every unary / first stream response and so cannot send a response sized to the byte.")
     technique = "Coq proof (fixed-point iteration on a step function, case split on varint classes); differential model-vs-Go; live RPC spec comparison"
 
     def nontrivial(self, case, res):
@@ -264,7 +270,7 @@ class C19(Prop):
                 cfgs.append((side, 2, p, rng.choice(COMPRESSIONS[1:]), st, 1))
         else:
             cfgs = [(0, 2, p, c, st, f) for st in STREAMS for p in (1, 2, 3) for c in COMPRESSIONS for f in (0, 1)]
-            cfgs += [(0, 1, p, c, st, f) for st in (1, 2, 3, 4) for p in (1, 3) for c in COMPRESSIONS for f in (0, 1)]
+            cfgs += [(0, 1, p, c, st, f) for st in (1, 2, 3) for p in (1, 3) for c in COMPRESSIONS for f in (0, 1)]
             cfgs += [(1, hv, p, c, st, f) for hv in (1, 2) for p in (1, 2, 3) for c in COMPRESSIONS for st in (1, 3)
                      for f in (0, 1) if not (hv == 1 and p == 2)]
         for side, hv, p, c, st, f in cfgs:
